@@ -139,6 +139,25 @@ pub fn cases(ctx: &Ctx) -> Vec<Case> {
             }
             v.push(Case { prog: p, histories: hs });
         }
+        // steered shape: compressed block 0 ends one byte after an encryption chunk edge, that byte
+        // not being needed by the decoder; file 2 runs over the block edge. Abandon around the edge.
+        for (layers, grid) in [(3u8, crate::shapes::Grid::Chunk), (2, crate::shapes::Grid::Window)] {
+            if let Some(p) = crate::shapes::block_end(&k, ctx.seed, layers, 1, grid, 1, true, false) {
+                let lay = layout(&p, &k);
+                // offset, within file 2, of the first byte of block 1
+                let start2 = lay.points.iter().filter(|pt| pt.kind == "piece_end").nth(2).map_or(0, |pt| pt.pos.saturating_sub(k.block));
+                let edge = k.block.saturating_sub(start2);
+                let mut hs = Vec::new();
+                for d in [-1i64, 0, 1, 4096, -70_000] {
+                    let t = (edge as i64 + d).max(0) as u64;
+                    for next in 0..5u8 {
+                        hs.push(abandon_history(2, Sz::from_concrete(t, &k), next, (next % 2) as usize, rng.next()));
+                    }
+                }
+                hs.push(vec![HOp::Open(2), HOp::ReadAll(7), HOp::Open(0), HOp::ReadAll(8), HOp::Hash(2)]);
+                v.push(Case { prog: p, histories: hs });
+            }
+        }
     }
     v
 }
